@@ -16,13 +16,18 @@ from mcx.explore import explore
 from mcx.seams import owned_random
 
 DISPL = ('generic', 'along_bond', 'tiny', 'large', 'zero')     # zero: the bonds must still be restored to the table
-TABLES = ('geom', 'fixed', 'geom_rev')      # geom_rev: neighbour lists in reverse (descending) order
+# geom_rev: neighbour lists in reverse (descending) order; fixed_keysdesc: the dictionary filled from the last atom to
+# the first (its keys do not iterate as 0, 1, 2, ...)
+TABLES = ('geom', 'fixed', 'geom_rev', 'fixed_keysdesc')
 
 
 def bonds_table(n, edges, pos, table):
     info = {i: [] for i in range(n)}
     if table.endswith('_rev'):
         return {i: v[::-1] for i, v in bonds_table(n, edges, pos, table[:-4]).items()}
+    if table.endswith('_keysdesc'):
+        t = bonds_table(n, edges, pos, table[:-9])
+        return {i: t[i] for i in sorted(t, reverse=True)}
     for a, b in edges:
         if table == 'geom':
             ln = float(np.linalg.norm(pos[a] - pos[b]))
@@ -61,7 +66,7 @@ class C07(Check):
     technique = ('exhaustive enumeration of all labelled trees / connected graphs x moved atom x displacement '
                  'alphabet on the real move_mol_atom; stateless choice-point exploration of the owned random draws')
     level_text = ('every labelled tree up to 6 (quick) / 7 (thorough) atoms, every moved atom, 4 displacement '
-                  'classes, 3 bond tables (geometry, fixed, geometry with descending neighbour lists), a table edited in place between two moves, forests, every connected cyclic graph up to 5/6 vertices, 20/60-atom '
+                  'classes, 4 bond tables (geometry, fixed, geometry with descending neighbour lists, fixed with the dictionary filled from the last atom to the first), the atom index as int and as numpy integer, a table edited in place between two moves, forests, every connected cyclic graph up to 5/6 vertices, 20/60-atom '
                   'families, and every answer of the random draws of find_atom_random_displ are executed on the '
                   'real code; a coverage statement over that finite space, not a proof for all reals')
     level_note = ('trusted: numpy arithmetic, the Pruefer/graph enumerators (self-tested against closed-form counts), '
@@ -177,7 +182,15 @@ class C07(Check):
                     d = displacement(dk, pos, adj, atom, seed)
                     cdesc = dict(case, atom=atom, dk=dk)
                     before = pos.copy()
-                    out = move_mol_atom(pos, info, atom, d.copy())
+                    # the atom index as a plain int or (two of the five displacement classes) as a numpy integer, as it
+                    # comes out of np.arange / np.argmax
+                    try:
+                        out = move_mol_atom(pos, info, np.int64(atom) if dk in ('along_bond', 'large') else atom, d.copy())
+                    except Exception as exc:
+                        R.case(cdesc, nontrivial=False, outcome='exception', cls=f"exception/{case['table']}")
+                        R.violation('move/exception', cdesc, repr(exc))
+                        pos = before.copy()
+                        continue
                     sig = None
                     if not np.array_equal(pos, before):
                         sig, det = 'move/input-modified', 'input array changed'
@@ -354,8 +367,11 @@ class C07(Check):
             with owned_random(script):
                 return fn(pos, info, atom, sigma_scale=case['sigma'])
 
+        held = []
+
         def on_exec(ctx, d, cut):
             cdesc = dict(case, atom=atom, choices=list(ctx.trace))
+            held.append((d, np.array(d, float).copy(), cdesc))
             R.case(cdesc, nontrivial=True, cls=f'displ/neigh{min(len(nb), 3)}',
                    outcome=f'displacement-drawn/neighbours={min(len(nb), 3)}')
             if 'bad_sigma' in ctx.data:
@@ -381,8 +397,16 @@ class C07(Check):
             from mcx.explore import Ctx
             ctx = Ctx(ctx_prefix)
             on_exec(ctx, run(ctx), False)
+            ctx = Ctx([0] * len(ctx_prefix))          # one more draw while the first displacement is held
+            on_exec(ctx, run(ctx), False)
         else:
             explore(run, None, on_exec)
+        # the displacements AS RETURNED, kept by the caller (one per trial move) while the later ones were drawn
+        for raw, snap, cdesc in held:
+            if not np.array_equal(np.asarray(raw, float), snap):
+                R.violation('displ/displacement-returned-earlier-changed-by-a-later-draw', cdesc,
+                            f'{snap.tolist()} now reads {np.asarray(raw).tolist()}')
+                break
 
 
 CHECK = C07()
